@@ -639,6 +639,21 @@ pub fn qops(spec: &str) -> (Vec<String>, Qualifiers) {
                         format!("v:{}:{}", h(&v), if called { "c" } else { "nc" })
                     },
                 },
+                "eC" => match q.entry(uh(f[1])) {
+                    Err(_) => "e".into(),
+                    Ok(en) => {
+                        // the callback empties the value; the entry is then used again
+                        let mut called = false;
+                        let v = en
+                            .and_modify(|v| {
+                                called = true;
+                                v.clear()
+                            })
+                            .or_insert(uh(f[2]))
+                            .to_string();
+                        format!("v:{}:{}", h(&v), if called { "c" } else { "nc" })
+                    },
+                },
                 "ei" => match q.entry(uh(f[1])) {
                     Err(_) => "e".into(),
                     Ok(Entry::Occupied(mut o)) => {
@@ -675,7 +690,8 @@ pub fn qops(spec: &str) -> (Vec<String>, Qualifiers) {
                     let il = it.len();
                     let ml = q.iter_mut().len();
                     let cap_ok = q.capacity() >= q.len();
-                    let keys_ok = q.iter().all(|(k, _)| k.as_str() == &**k && k.as_str() == AsRef::<str>::as_ref(k) && Small::from(k).as_str() == k.as_str());
+                    let keys_ok = q.iter().all(|(k, _)| k.as_str() == &**k && k.as_str() == AsRef::<str>::as_ref(k) && Small::from(k).as_str() == k.as_str())
+                        && iter_adaptors_ok(&mut q);
                     format!("l:{}:{}:{}:{}:{}:{}:{}", q.len(), if q.is_empty() { "t" } else { "f" }, il, hint.0, hint.1 == Some(q.len()) && cap_ok && keys_ok, ml, (&q).into_iter().count())
                 },
                 "tr" => {
@@ -800,6 +816,46 @@ pub fn qops(spec: &str) -> (Vec<String>, Qualifiers) {
         outs.push(r.unwrap_or_else(|_| "PANIC".into()));
     }
     (outs, q)
+}
+/// every way of walking the collection gives the positions of the plain forward walk: nth / nth_back / skip / step_by / last / rev on iter(),
+/// `&q`, iter_mut() and `&mut q`, and the remaining length reported while walking from both ends
+fn iter_adaptors_ok(q: &mut Qualifiers) -> bool {
+    let fwd: Vec<(String, String)> = q.iter().map(|(k, v)| (k.as_str().to_string(), v.to_string())).collect();
+    let n = fwd.len();
+    let pick = |x: Option<(&purl::qualifiers::QualifierKey, &str)>| x.map(|(k, v)| (k.as_str().to_string(), v.to_string()));
+    let mut ok = true;
+    for i in 0..n + 1 {
+        ok &= pick(q.iter().nth(i)) == fwd.get(i).cloned();
+        ok &= pick(q.iter().nth_back(i)) == (if i < n { fwd.get(n - 1 - i).cloned() } else { None });
+        ok &= pick(q.iter().rev().nth(i)) == (if i < n { fwd.get(n - 1 - i).cloned() } else { None });
+        ok &= q.iter().skip(i).map(|x| pick(Some(x)).unwrap()).collect::<Vec<_>>() == fwd[i.min(n)..].to_vec();
+        ok &= q.iter().rev().skip(i).map(|x| pick(Some(x)).unwrap()).collect::<Vec<_>>() == fwd[..n - i.min(n)].iter().rev().cloned().collect::<Vec<_>>();
+        ok &= (&*q).into_iter().nth_back(i).map(|(k, v)| (k.as_str().to_string(), v.to_string())) == (if i < n { fwd.get(n - 1 - i).cloned() } else { None });
+        let m: Option<(String, String)> = q.iter_mut().nth_back(i).map(|(k, v)| (k.as_str().to_string(), v.to_string()));
+        ok &= m == (if i < n { fwd.get(n - 1 - i).cloned() } else { None });
+        let m: Option<(String, String)> = q.iter_mut().nth(i).map(|(k, v)| (k.as_str().to_string(), v.to_string()));
+        ok &= m == fwd.get(i).cloned();
+        let m: Option<(String, String)> = (&mut *q).into_iter().rev().nth(i).map(|(k, v)| (k.as_str().to_string(), v.to_string()));
+        ok &= m == (if i < n { fwd.get(n - 1 - i).cloned() } else { None });
+    }
+    for step in 1..4 {
+        ok &= q.iter().step_by(step).map(|x| pick(Some(x)).unwrap()).collect::<Vec<_>>() == fwd.iter().step_by(step).cloned().collect::<Vec<_>>();
+        ok &= q.iter().rev().step_by(step).map(|x| pick(Some(x)).unwrap()).collect::<Vec<_>>() == fwd.iter().rev().step_by(step).cloned().collect::<Vec<_>>();
+    }
+    ok &= pick(q.iter().last()) == fwd.last().cloned() && q.iter().count() == n && q.iter().rev().count() == n;
+    // alternate ends: lengths shrink by one per step and the two walks meet without overlap
+    let mut it = q.iter();
+    let (mut lo, mut hi) = (0usize, n);
+    let mut turn = false;
+    while lo < hi {
+        ok &= it.len() == hi - lo;
+        let got = if turn { hi -= 1; pick(it.next_back()) } else { lo += 1; pick(it.next()) };
+        let want = if turn { fwd.get(hi).cloned() } else { fwd.get(lo - 1).cloned() };
+        ok &= got == want;
+        turn = !turn;
+    }
+    ok &= it.next().is_none() && it.next_back().is_none() && it.len() == 0;
+    ok
 }
 fn q_case(spec: &str) -> String {
     let (outs, q) = qops(spec);
